@@ -231,14 +231,14 @@ PROPS.update({
     },
     "C19": {
         "modules": ["specs.socket_model", "specs.pystruct", "specs.seqdict", "specs.opaque", "specs.strings", "contracts.uri"],
-        "contracts": ["Pyro5.core.URI._parseLocation", "Pyro5.core.URI.location", "Pyro5.core.URI.__eq__"],
+        "contracts": ["Pyro5.core.URI._parseLocation", "Pyro5.core.URI.location", "Pyro5.core.URI.__eq__", "Pyro5.core.URI.__setstate__"],
         "lemmas": ["C19:loc_roundtrip"],
         "harness": "replay/c19.py",
         "explanation": "_parseLocation proved against an exact string-level specification per location form (unix socket, host:port with the first ':' as separator "
                        "and int() of the rest or the default port, bracketed IPv6) and to refuse exactly the invalid inputs; the `location` property proved to print "
                        "'[host]:port' / 'host:port' / './u:name' / None from the state; lemma loc_roundtrip (over the two contracts): for every state the parser can "
                        "produce from a unix-socket or host:port location, the printed location is accepted again and parses to the same (sockname, host, port); "
-                       "__eq__ holds exactly when the five state components are equal.",
+                       "__eq__ holds exactly when the five state components are equal; __setstate__ (the path behind URI(uri) copies, copy.copy and every serializer's re-creation) takes the five components over unchanged, port 0 and None included.",
         "assumptions": ["SMT string theory for str operations; int() through int_parses/int_val with int('%d' % n) == n; the IPv6 regex as specified in specs/strings.py "
                         "(validated against `re` on all strings <= 5 over an 8-letter alphabet: bounded)",
                         "NOT decided deductively (bounded native harness only): the bracketed IPv6 round trip, URI.__init__/uriRegEx, __str__, __hash__, PYROMETA, the proxy state and serializer paths",
